@@ -194,6 +194,7 @@ class EdgeSpanningForest(SpanningForest):
         super().__init__(mesh)
 
     def compute(self) -> None :
+        self.trees, self.roots = [], [] # a forest computed again starts from scratch
         visited = [False]*len(self.mesh.vertices)
         for v in self.mesh.id_vertices:
             if not visited[v]:
